@@ -2,11 +2,12 @@
 (***************************************************************************)
 (* C07: abstract programs as scope trees, generated top-down.  The product *)
 (* `out` lists, in source order,                                           *)
-(*   "F:n"  open a function declaration named n   "E:n" / "E:" open a      *)
-(*   (named / anonymous) function expression      "C:n" open catch (n)     *)
-(*   ")"    close the innermost of these                                   *)
-(*   "P:n"  a parameter of the function just opened                        *)
-(*   "V:n"  var n      "R:n"  a reference to n      "p:n"  property .n     *)
+(* pairs <<kind, name>>:                                                   *)
+(*   F n  open a function declaration named n   E n / E "" open a (named / *)
+(*   anonymous) function expression             C n  open catch (n)        *)
+(*   ) "" close the innermost of these                                     *)
+(*   P n  a parameter of the function just opened                          *)
+(*   V n  var n        R n  a reference to n        p n  property .n       *)
 (* Names range over Names (some of which are never declared in a run and   *)
 (* are therefore free).  The harness renders the text; what each           *)
 (* occurrence denotes is decided by ScopeTrace.tla, not here.              *)
@@ -32,7 +33,7 @@ Params == /\ stack # <<>> /\ Head(stack)[1] = "A"
           /\ \/ stack' = Tail(stack) /\ UNCHANGED <<out, items>>
              \/ /\ Head(stack)[2] > 0 /\ items < MaxItems
                 /\ \E n \in Names :
-                     stack' = << <<"e", "P:" \o n>>,
+                     stack' = << <<"e", <<"P", n>>>>,
                                  <<"A", Head(stack)[2] - 1>> >> \o Tail(stack)
                 /\ items' = items + 1 /\ UNCHANGED out
 
@@ -43,23 +44,23 @@ Body ==
        \/ /\ items < MaxItems
           /\ items' = items + 1 /\ UNCHANGED out
           /\ \E n \in Names :
-               \/ stack' = << <<"e", "V:" \o n>> >> \o stack
-               \/ stack' = << <<"e", "R:" \o n>> >> \o stack
-               \/ stack' = << <<"e", "p:" \o n>> >> \o stack
+               \/ stack' = << <<"e", <<"V", n>>>> >> \o stack
+               \/ stack' = << <<"e", <<"R", n>>>> >> \o stack
+               \/ stack' = << <<"e", <<"p", n>>>> >> \o stack
                \/ /\ d < MaxDepth
                   /\ \/ /\ ~Head(stack)[3]
-                        /\ stack' = << <<"e", "F:" \o n>>, <<"A", MaxParams>>,
-                                       <<"B", d + 1, FALSE>>, <<"e", ")">> >>
+                        /\ stack' = << <<"e", <<"F", n>>>>, <<"A", MaxParams>>,
+                                       <<"B", d + 1, FALSE>>, <<"e", <<")", "">>>> >>
                                      \o stack
-                     \/ stack' = << <<"e", "E:" \o n>>, <<"A", MaxParams>>,
-                                    <<"B", d + 1, FALSE>>, <<"e", ")">> >>
+                     \/ stack' = << <<"e", <<"E", n>>>>, <<"A", MaxParams>>,
+                                    <<"B", d + 1, FALSE>>, <<"e", <<")", "">>>> >>
                                   \o stack
-                     \/ stack' = << <<"e", "C:" \o n>>, <<"B", d + 1, TRUE>>,
-                                    <<"e", ")">> >> \o stack
+                     \/ stack' = << <<"e", <<"C", n>>>>, <<"B", d + 1, TRUE>>,
+                                    <<"e", <<")", "">>>> >> \o stack
        \/ /\ items < MaxItems /\ d < MaxDepth
           /\ items' = items + 1 /\ UNCHANGED out
-          /\ stack' = << <<"e", "E:">>, <<"A", MaxParams>>,
-                         <<"B", d + 1, FALSE>>, <<"e", ")">> >> \o stack
+          /\ stack' = << <<"e", <<"E", "">>>>, <<"A", MaxParams>>,
+                         <<"B", d + 1, FALSE>>, <<"e", <<")", "">>>> >> \o stack
 
 Next == Emit1 \/ Params \/ Body
 Spec == Init /\ [][Next]_vars
